@@ -29,6 +29,7 @@ const (
 	EvTunnel                  // S=what ("chan-start","chan-done","serve-return","rev-open","rev-close"...) A=tunnel idx S2=detail
 	EvViolation               // S=property S2=kind P=*Violation
 	EvCheckpoint              // S=name
+	EvCounter                 // S=counter name A=value (reported to the driver)
 )
 
 // Network directions of a carrier stream.
@@ -294,6 +295,7 @@ type World struct {
 	frameTriggers []frameTrigger
 	frameCount    int
 
+	servers  []serverRef
 	ConnMeta map[int]ConnMeta
 	wire     map[int]*wireConn
 
